@@ -75,9 +75,14 @@ class PropBase:
         if not self.address_change or rng.random() >= self.address_change or sc.get('no_model'):
             return sc
         ops = sc['ops']
-        if not ops or ops[0].get('op') != 'layer' or ops[0].get('i') != 0 or 'judge_view' in sc or ops[0].get('cls') is not None:
+        if 'judge_view' in sc:
             return sc
-        first = ops[0]
+        # the first layer op for layer 0 (pure address / option probes may come before it)
+        pos = next((k for k, o in enumerate(ops) if o.get('op') == 'layer'), None)
+        if pos is None or ops[pos].get('i') != 0 or ops[pos].get('cls') is not None or any(
+                o.get('op') not in ('addr', 'ifm', 'params', 'specseg', 'specreasm') for o in ops[:pos]):
+            return sc
+        first = ops[pos]
         other, _ = gen.rand_addr_pair(rng, asym_prob=0.2)
         params = dict(first.get('params') or {})
         pre = [dict(first, addr=other)]
@@ -96,8 +101,9 @@ class PropBase:
                 pre = [dict(first, addr=other)]
         pre.append({'op': 'set_address', 'i': 0, 'addr': first['addr']})
         pre = [dict(o, keep=True) for o in pre]
-        rest = [dict(op, _o=j + 1) for j, op in enumerate(ops[1:])]      # index in the scenario as generated
-        sc = dict(sc, ops=pre + rest, judge_view={'skip': len(pre), 'layer_op': dict(first, _o=0)})
+        head = [dict(op, _o=j) for j, op in enumerate(ops[:pos])]
+        rest = [dict(op, _o=pos + 1 + j) for j, op in enumerate(ops[pos + 1:])]      # index in the scenario as generated
+        sc = dict(sc, ops=head + pre + rest, judge_view={'pos': pos, 'skip': pos + len(pre), 'layer_op': dict(first, _o=pos)})
         sc['tags'] = list(sc.get('tags', [])) + ['address_change']
         return sc
 
@@ -107,10 +113,10 @@ class PropBase:
         jv = sc.get('judge_view')
         if not jv:
             return sc, li, lo
-        k = jv['skip']
+        k, p = jv['skip'], jv.get('pos', 0)
         if len(li) < k or (k <= len(lo) and not lo[k - 1].split('|')[1:2] == ['ok']):
             return sc, li, lo
-        return dict(sc, ops=[jv['layer_op']] + sc['ops'][k:]), [li[0]] + li[k:], ['ok'] + lo[k:]
+        return dict(sc, ops=sc['ops'][:p] + [jv['layer_op']] + sc['ops'][k:]), li[:p] + [li[p]] + li[k:], lo[:p] + ['ok'] + lo[k:]
 
     def mix_partial_passes(self, rng, sc):
         sc = self.mix_address_change(rng, sc)
@@ -119,7 +125,7 @@ class PropBase:
             return g
         if not self.partial_passes or rng.random() >= self.partial_passes:
             return sc
-        with_rx = rng.random() < self.rx_only_passes
+        with_rx = rng.random() < self.rx_only_passes and not sc.get('no_rx_only')
         q = rng.choice([0.1, 0.3, 0.8])
         ops = []
         n = 0
